@@ -40,6 +40,9 @@ def gen_sample(rng, n, kind, scale):
         v = [rng.choice(pool) for _ in range(n)]
     elif kind == "tiefree":
         v = [k / 64.0 for k in rng.sample(range(-4096, 4097), n)]
+    elif kind == "decimal":  # data rounded to one decimal: ties at non-dyadic values (0.1, 0.3, 0.7 ...)
+        pool = [rng.randint(-30, 60) / 10.0 for _ in range(max(1, (n + 1) // 2))]
+        v = [rng.choice(pool) for _ in range(n)]
     elif kind == "positive":
         v = [rng.randint(0, 2048) / 64.0 for _ in range(n)]
     else:  # dyadic, ties possible but rare
@@ -54,7 +57,7 @@ def gen_case(rng, k):
     dtype = rng.choice(["float64"] * 6 + ["float32"] * 2 + ["int64"] * 2)
     if dtype == "int64":
         return gen_case_int(rng, k)
-    kinds = ["ties", "ties", "tiefree", "tiefree", "dyadic", "positive", "constant"]
+    kinds = ["ties", "ties", "tiefree", "tiefree", "dyadic", "positive", "constant", "decimal", "decimal"]
     nx = rng.choice([1, 2, 2, 3, 4, 5, 6, 7, 8, 9, 10, 11, 12])
     equal = rng.random() < 0.5
     ny = nx if equal else rng.randint(1, 12)
@@ -82,6 +85,7 @@ def gen_case(rng, k):
             ps.add(kk / n)
     ps = rng.sample(sorted(ps), min(10, len(ps)))
     ps += [0.0, 1.0] + [rng.randint(0, 256) / 256.0 for _ in range(3)] + [rng.randint(0, 2 ** 30) / 2.0 ** 30]
+    ps += [rng.randint(0, 1000) / 1000.0 for _ in range(6)] + [rng.random() for _ in range(6)]
     ps = np.array(sorted(set(ps)), dtype=float)
     if dtype == "float32":
         if x.min() == x.max() and scale > 1:
@@ -367,11 +371,13 @@ def oracle(c, problems, stats):
     # ---- iecdf
     for im in IM:
         q = quiet(M.iecdf, y, ps, im)
-        tol = eps * (1 + float(np.abs(y).max()))
-        if np.any(np.diff(q) < -tol):
-            bad(f"iecdf({im}) decreasing in p: {q.tolist()}", {"method": im, "law": "monotone"}, function="iecdf", method=im)
-        if np.any(q < ymin - tol) or np.any(q > ymax + tol):
-            bad(f"iecdf({im}) outside [min, max]", {"method": im, "law": "range"}, function="iecdf", method=im)
+        # exact (no tolerance): numpy's _lerp is monotone and bounded by construction, IECDF / the discrete methods index the sample
+        if np.any(np.diff(q) < 0):
+            j = int(np.argmax(np.diff(q) < 0))
+            bad(f"iecdf({im}) decreases in p: p = {ps[j]!r} -> {q[j]!r}, p = {ps[j + 1]!r} -> {q[j + 1]!r}", {"method": im, "law": "monotone"}, function="iecdf", method=im)
+        if np.any(q < ymin) or np.any(q > ymax):
+            j = int(np.argmax((q < ymin) | (q > ymax)))
+            bad(f"iecdf({im}) leaves [min, max] = [{float(ymin)!r}, {float(ymax)!r}]: p = {ps[j]!r} -> {q[j]!r}", {"method": im, "law": "range"}, function="iecdf", method=im)
         q01 = quiet(M.iecdf, y, np.array([0.0, 1.0]), im)
         if q01[0] != ymin or q01[1] != ymax:
             bad(f"iecdf({im}) at p=0/1 is {q01.tolist()}, sample min/max {float(ymin)}/{float(ymax)}", {"method": im, "law": "endpoints"}, function="iecdf", method=im)
@@ -391,10 +397,10 @@ def oracle(c, problems, stats):
             if im in DISCRETE_IM and not np.all(np.isin(q, y)):
                 bad(f"quantile_map_non_parametically({em},{im}) returns {q[~np.isin(q, y)][:3].tolist()}, not values of the target sample", {**dsig, "law": "qmap_values_of_target"},
                     function="qmap", pair=[em, im])
-            if np.any(np.diff(q) < -tolq):
+            if np.any(np.diff(q) < 0):
                 bad(f"quantile_map_non_parametically({em},{im}) not monotone", {"method": em, "iecdf": im, "law": "qmap_monotone"}, function="qmap", pair=[em, im])
-            if np.any(q < ymin - tolq) or np.any(q > ymax + tolq):
-                bad(f"quantile_map_non_parametically({em},{im}) leaves [min y, max y]", {"method": em, "iecdf": im, "law": "qmap_range"}, function="qmap", pair=[em, im])
+            if np.any(q < ymin) or np.any(q > ymax):  # exact
+                bad(f"quantile_map_non_parametically({em},{im}) leaves [min y, max y] = [{float(ymin)!r}, {float(ymax)!r}]: {q[(q < ymin) | (q > ymax)][:3].tolist()}", {"method": em, "iecdf": im, "law": "qmap_range"}, function="qmap", pair=[em, im])
             qx = qx_raw.astype(float)
             above, below = sv > xmax, sv < xmin
             inside = ~above & ~below
@@ -556,6 +562,61 @@ def oracle_purity(c, problems, stats):
         bad("quantile maps: repeating the calls on the same arrays changes the result", {"law": "call_sequence", "function": "qmap"}, function="qmap")
 
 
+def oracle_subvectors(c, problems, stats):
+    """every helper is element-wise in its evaluation vector (Props.C16.qmap_elementwise, qmapExtrap_eq_map, ecdf_elementwise,
+    iecdf_elementwise): evaluated on a sub-vector — values below the source range only, above only, inside only, a single
+    value, a permutation, repeats — it returns the corresponding entries of the call on the whole vector, bit for bit"""
+    from ibicus.utils import _math_utils as M
+
+    x, y, vals, ps = c["x"], c["y"], c["vals"], c["ps"]
+    cj = case_json(c)
+    k = c["k"]
+    xmin, xmax = x.min(), x.max()
+    idx_all = np.arange(vals.size)
+    below, above = idx_all[vals < xmin], idx_all[vals > xmax]
+    inside = idx_all[(vals >= xmin) & (vals <= xmax)]
+    perm = np.random.RandomState(k).permutation(vals.size)
+    subs = [("values below the source range only", below), ("values above the source range only", above), ("values inside the source range only", inside),
+            ("below and inside, none above", np.concatenate([below, inside])), ("above and inside, none below", np.concatenate([inside, above])),
+            ("a single value below", below[:1]), ("a single value above", above[:1]), ("a single value inside", inside[:1]),
+            ("a permutation", perm), ("repeated values", np.concatenate([idx_all[:3], idx_all[:3], above[:1], below[:1]]))]
+    pidx = np.arange(ps.size)
+    psubs = [("a single probability", pidx[k % ps.size:k % ps.size + 1]), ("p = 0 alone", pidx[:1]), ("p = 1 alone", pidx[-1:]), ("reversed", pidx[::-1]), ("every other", pidx[::2])]
+    pairs = [(EM[k % 3], IM[k % 9]), ("step_function", "inverted_cdf"), (EM[(k + 1) % 3], "linear")]
+
+    def run1(f, *a):
+        with warnings.catch_warnings(), np.errstate(all="ignore"):
+            warnings.simplefilter("ignore")
+            return np.asarray(f(*a))
+
+    def cmp(name, full, sub, idx, how, args):
+        stats["subvector_checks"] += 1
+        if sub.shape != idx.shape or not np.array_equal(sub, full[idx], equal_nan=True):
+            j = int(np.argmax(sub != full[idx])) if sub.shape == idx.shape else 0
+            problems.append((f"{name}: evaluated on {how} it returns {sub.ravel()[j:j + 1].tolist()} for the value {args[j:j + 1].tolist()}; within the whole vector the same value gets "
+                             f"{full[idx][j:j + 1].tolist()}", {**cj, "function": name, "subvector": how, "sub_values": args.tolist()}, {"law": "elementwise", "function": name.split("[")[0]}))
+
+    for em, im in pairs:
+        fq = run1(M.quantile_map_non_parametically, x, y, vals, em, im)
+        fx = run1(M.quantile_map_non_parametically_with_constant_extrapolation, x, y, vals, em, im)
+        for how, idx in subs:
+            if idx.size == 0:
+                continue
+            v = vals[idx]
+            cmp(f"quantile_map_non_parametically[{em},{im}]", fq, run1(M.quantile_map_non_parametically, x, y, v, em, im), idx, how, v)
+            cmp(f"quantile_map_non_parametically_with_constant_extrapolation[{em},{im}]", fx,
+                run1(M.quantile_map_non_parametically_with_constant_extrapolation, x, y, v, em, im), idx, how, v)
+    for em in EM:
+        fe = run1(M.ecdf, x, vals, em)
+        for how, idx in subs:
+            if idx.size:
+                cmp(f"ecdf[{em}]", fe, run1(M.ecdf, x, vals[idx], em), idx, how, vals[idx])
+    for im in ("inverted_cdf", "linear", IM[k % 9]):
+        fi = run1(M.iecdf, y, ps, im)
+        for how, idx in psubs:
+            cmp(f"iecdf[{im}]", fi, run1(M.iecdf, y, ps[idx], im), idx, how, ps[idx])
+
+
 def oracle_endpoints(n, rng, problems, stats):
     """the end points, exactly, for a tie-free sample of size n: ecdf == 1.0 at and above the maximum, == 0.0 below the
     minimum (float evaluation of k/n must not miss them), iecdf(0/1) == min/max, quantile map of max x == max y for all
@@ -706,6 +767,7 @@ def run(tier, res, force_search=False):
                   np.unique(x).size >= 2, sample={"x": x.tolist()[:6], "y": y.tolist()[:6], "scale": c["scale"], "n_vals": int(c["vals"].size), "n_ps": int(c["ps"].size)})
         oracle_purity(c, problems, stats)  # first: works on copies, before any helper has seen the case's own arrays
         oracle_inplace_sequences(c, problems, stats)
+        oracle_subvectors(c, problems, stats)
         snap = {a: c[a].tobytes() for a in ("x", "y", "y2", "vals", "ps")}
         correspondence(c, corr)
         seq_correspondence(c, corr)
@@ -728,6 +790,8 @@ def run(tier, res, force_search=False):
         oracle_purity(c, problems, stats)
         if k % 4 == 0:
             oracle_inplace_sequences(c, problems, stats)
+        if k % 2 == 0:
+            oracle_subvectors(c, problems, stats)
         oracle(c, problems, stats)
     # every sample size 1..400 (the float evaluation of k/n at the end points depends on n) and a few long ones
     sizes = list(range(1, 401)) + [1000, 4096, 10007, 20001] + ([36500, 65536] if tier == "thorough" else [])
@@ -773,6 +837,7 @@ def replay(data):
     oracle(c, problems, collections.Counter())
     oracle_purity(c, problems, collections.Counter())
     oracle_inplace_sequences(c, problems, collections.Counter())
+    oracle_subvectors(c, problems, collections.Counter())
     want = data.get("signature", {})
     hits = [p for p in problems if all(p[2].get(k) == v for k, v in want.items())]
     for desc, _, sig in hits:
